@@ -23,6 +23,7 @@ ASSUMPTIONS = [
 def drain_models(prog, I):
     EPIPE = prog.const("REPROC_EPIPE")
     OUT, ERR, DL = prog.const("REPROC_EVENT_OUT"), prog.const("REPROC_EVENT_ERR"), prog.const("REPROC_EVENT_DEADLINE")
+    EXIT, IN = prog.const("REPROC_EVENT_EXIT"), prog.const("REPROC_EVENT_IN")
 
     def sink(which):
         def m(I_, fn, n, args, st):
@@ -43,6 +44,11 @@ def drain_models(prog, I):
 
     def o_poll(I_, fn, n, args, st):
         s0 = st.copy()
+        ints = None
+        for t in [x[1] for x in args[0] if isinstance(x, tuple) and x[0] == "addr"]:
+            base = t[1] if t[0] == "i" else t
+            ints = st.mem.get(("f", base, "interests")) or st.mem.get(("f", ("i", base, 0), "interests"))
+        s0.mon["poll_interests"] = ints
         ev(I_, "poll", fn, n, args, s0)
         if s0.mon.get("stopped"):
             ev(I_, "after-stop", fn, n, "poll", s0)
@@ -53,7 +59,13 @@ def drain_models(prog, I):
         b = s0.copy()
         b.mon["last"] = ("poll", "neg")
         outs.append((b, frozenset(x for x in I_.neg() if x != EPIPE)))
-        for evs in (OUT, ERR, OUT | ERR, DL, DL | OUT, DL | ERR, DL | OUT | ERR):
+        combos = [OUT, ERR, OUT | ERR, DL, DL | OUT, DL | ERR, DL | OUT | ERR]
+        # a source that also asks for other events (exit, in) gets them reported, alone or with the output events
+        known = ints is not None and all(isinstance(x, int) for x in ints)
+        for bit in (EXIT, IN):
+            if not known or any(x & bit for x in ints):
+                combos += [bit, bit | OUT, bit | ERR, bit | OUT | ERR]
+        for evs in combos:
             c = s0.copy()
             for t in [x[1] for x in args[0] if isinstance(x, tuple) and x[0] == "addr"]:
                 base = t[1] if t[0] == "i" else t
@@ -87,7 +99,9 @@ def drain_rules(ctx, prog, fname="reproc_drain"):
     OUT, ERR, DL = prog.const("REPROC_EVENT_OUT"), prog.const("REPROC_EVENT_ERR"), prog.const("REPROC_EVENT_DEADLINE")
     SIN, SOUT, SERR = prog.const("REPROC_STREAM_IN"), prog.const("REPROC_STREAM_OUT"), prog.const("REPROC_STREAM_ERR")
     I = new_interp(prog)
+    EXIT, IN = prog.const("REPROC_EVENT_EXIT"), prog.const("REPROC_EVENT_IN")
     extra = {OUT, ERR, OUT | ERR, DL, DL | OUT, DL | ERR, DL | OUT | ERR, 0, 1, 2}
+    extra |= {b | x for b in (EXIT, IN) for x in (0, OUT, ERR, OUT | ERR)}
     I.K = sorted(set(I.K) | extra)
     I.Kset = set(I.K)
     I.TOP_INT = frozenset(I.K) | {"NEG", "POS"}
